@@ -16,10 +16,12 @@ META = {
                  'record / back-off, controller change, restart, snapshot) checked exhaustively by TLC incl. liveness; '
                  'TLC-generated behaviours replayed lock-step on real servers (dispatcher sequenced through a gate '
                  'between publish and record, publish failures by a read-only __activity log, restarts over the same '
-                 'data directory); recorded Raft log + activity stream judged by TLC (trace validation)',
+                 'data directory, Raft snapshots, a second cluster with another namespace on the same NATS deployment); '
+                 'recorded Raft log + activity stream judged by TLC (trace validation)',
     'level_text': 'TLC enumerates every interleaving of metadata operations, dispatcher steps (skip, publish, record, '
                   'publish/record failure, back-off), blockades of the activity partition, crashes/restarts, controller '
-                  'take-overs with a still-running old dispatcher, and snapshots within small bounds and proves: event id = '
+                  'take-overs with a still-running old dispatcher, snapshots (which carry lastPublished) and operations of a foreign '
+                  'cluster within small bounds and proves: event id = '
                   'Raft index and content = that operation on every delivery, nothing skipped, first occurrences in commit '
                   'order, replicated lastPublished never ahead of the stream, redeliveries only above the recorded index, '
                   'and (with fairness) every operation eventually published.  Behaviours of the same specification are '
@@ -27,7 +29,9 @@ META = {
                   'the log store together with the activity stream read back from offset 0 is re-judged by TLC after every step.',
     'level_note': 'Raft itself and NATS delivery are trusted.  Quick design check: one server, 4 operations, 1 blockade, '
                   '1 spontaneous publish failure, 1 record failure, 1 restart (eager schedule) and two servers, 3 operations, '
-                  '2 take-overs (all schedules); thorough adds 5 operations, operations without events, snapshots.  '
+                  '2 take-overs (all schedules), one server with 3 operations, 1 snapshot, 1 restart, 1 foreign operation; thorough adds '
+                  'deeper bounds.  Log compaction below the replicated lastPublished (snapshot with fewer trailing logs than '
+                  'the backlog) is modelled (DoDispatchPanic) but excluded from the exhaustive configs and never executed.  '
                   'Liveness is decided on the model only; on the real server a scenario that does not reach its target '
                   'state in time is inconclusive.  "Commit order with redelivery" is read as: first occurrences in commit '
                   'order, nothing skipped, and a redelivery only of events above the replicated lastPublished.',
@@ -92,7 +96,7 @@ class Meta:
 DROP = {'DispatchSkip', 'Backoff', 'NoticeLost', 'DispatchExit', 'Init'}
 
 
-def decorate(beh, rng, bid, nodes=('a',)):
+def decorate(beh, rng, bid, nodes=('a',), foreign=True):
     """TLC behaviour -> stimulus: environment steps become intents, dispatcher steps become waits"""
     meta = Meta(rng)
     steps = []
@@ -102,6 +106,10 @@ def decorate(beh, rng, bid, nodes=('a',)):
         name = a['a']
         if name in DROP:
             continue
+        if name == 'ForeignOp' and not foreign:
+            continue          # a stuttering step of the specification: leaving it out is sound
+        for k in ('snapd', 'pafter', 'lpgap', 'pend'):      # selection features, not arguments
+            a.pop(k, None)
         if name == 'PublishFail':
             fails_in_row += 1
             if fails_in_row > 2:      # third back-off would be 4 s and more: stop here
@@ -120,38 +128,154 @@ def decorate(beh, rng, bid, nodes=('a',)):
             steps.pop()
             continue
         steps.append(a)
-    return {'id': bid, 'cfg': {'nodes': list(nodes)}, 'steps': steps}
+    cfg = {'nodes': list(nodes)}
+    if any(s['a'] == 'ForeignOp' for s in steps):
+        cfg['foreign'] = foreign_cfg(rng)
+    return {'id': bid, 'cfg': cfg, 'steps': steps}
+
+
+def foreign_cfg(rng):
+    """namespaces of the two clusters that share one NATS deployment: never the same one"""
+    own = rng.choice(['', 'c18x', 'c18x'])
+    ns = rng.choice(['c18y', 'c18y', ''] if own else ['c18y'])
+    return {'own': own, 'ns': ns}
+
+
+def situations(beh):
+    """situation features of a simulated behaviour, from the `last` records TLC printed
+    (who restarts from what: computed by TLC from the model state, see MC_Activity.tla)"""
+    f = set()
+    snap = None
+    for st in beh[1:]:
+        a = st['last']
+        n = a['a']
+        if n == 'Snapshot':
+            snap = a
+            f.add('snap:backlog' if a['pend'] > 0 else 'snap:clean')
+            if a['lpgap'] > a['pend']:
+                f.add('snap:unrecorded')        # published, record still missing
+        elif n == 'Start' and a['snapd']:
+            f.add('restart-from-snap:%s:%s:%s' % ('backlog' if snap and snap['pend'] > 0 else 'clean',
+                                                  'P-behind' if a['pafter'] else 'no-P-behind',
+                                                  'gap%d' % min(a['lpgap'], 2)))
+        elif n == 'StepDown' and snap:
+            f.add('stepdown-after-snap')
+        elif n == 'ForeignOp':
+            f.add('foreign')
+        elif n == 'Crash':
+            f.add('crash:' + a['st'])
+        elif n == 'PublishFail' and snap:
+            f.add('fail-after-snap')
+    return f
+
+
+def select(sims, num, rng, per_feature=3):
+    """the pool is several times larger than what is executed: first the behaviours that
+    cover every situation feature `per_feature` times (rarest features first), then others"""
+    feats = [situations(b) for b in sims]
+    count = {}
+    for fs in feats:
+        for x in fs:
+            count[x] = count.get(x, 0) + 1
+    chosen, have = [], {}
+    for x in sorted(count, key=lambda y: (count[y], y)):
+        for i, fs in enumerate(feats):
+            if have.get(x, 0) >= per_feature:
+                break
+            if x in fs and i not in chosen and len(sims[i]) > 2:
+                chosen.append(i)
+                for y in fs:
+                    have[y] = have.get(y, 0) + 1
+    rest = [i for i in range(len(sims)) if i not in chosen and len(sims[i]) > 2]
+    rng.shuffle(rest)
+    chosen = (chosen + rest)[:max(num, len(chosen))]
+    return [sims[i] for i in chosen], {x: have.get(x, 0) for x in count}
 
 
 def snapshot_scenarios(rng, first_id, n):
-    """hand-written family (not from the simulation): a Raft snapshot, then an operation whose record is
-    lost (crash between publish and record, or publish blocked), restart.  The operation behind the
-    snapshot matters: a server restarted from a snapshot with no command behind it never starts its
-    streams (separate defect of the FSM recovery), so nothing could be published at all."""
+    """directed family (not from the simulation): a Raft snapshot in every situation of the dispatcher,
+    one more operation behind it, restart.
+      pre      operations published and recorded before the snapshot
+      backlog  operations committed while the activity partition rejects publishes: unpublished when
+               the snapshot is taken (0 = none)
+      tail     what happens to the operation behind the snapshot: its record is lost with the crash
+               (published) / its publish is blocked / it is only committed (backlog > 0)
+    After the restart the controller resumes behind the replicated lastPublished - which only the
+    snapshot carries when no PUBLISH_ACTIVITY entry lies behind it - and publishes exactly the
+    operations above it, in order.  (An operation behind the snapshot is always committed: the
+    election no-op alone does not make the restarted server start its restored streams.)"""
     out = []
     for i in range(n):
         meta = Meta(rng)
         steps = [{'a': 'Elect', 'n': 'a'}, {'a': 'BecomeLeader', 'n': 'a'},
                  {'a': 'DispatchPublish', 'n': 'a'}, {'a': 'RecordPublished', 'n': 'a'}]
-        events = 1
         for _ in range(rng.randint(1, 3)):
             op = {'a': 'CommitOp', 'k': 'E'}
             op.update(meta.pick())
             steps += [op, {'a': 'DispatchPublish', 'n': 'a'}, {'a': 'RecordPublished', 'n': 'a'}]
-            events += 1
+        backlog = [0, 1, 2][i % 3] if n >= 3 else rng.randint(0, 2)
+        foreign = i % 4 == 3
+        todo = 0
+        if backlog:
+            steps.append({'a': 'Block', 'how': rng.choice(['readonly', 'nack'])})
+            for k in range(backlog):
+                op = {'a': 'CommitOp', 'k': 'E'}
+                op.update(meta.pick())
+                steps.append(op)
+                if k == 0:
+                    steps.append({'a': 'PublishFail', 'n': 'a'})
+            todo = backlog
+        if foreign:
+            steps.append({'a': 'ForeignOp'})
         steps.append({'a': 'Snapshot', 'n': 'a', 'keep': 100})
         op = {'a': 'CommitOp', 'k': 'E'}
         op.update(meta.pick())
-        events += 1
-        if rng.random() < 0.5:
+        todo += 1
+        if backlog:
+            steps += [op, {'a': 'Crash', 'n': 'a'}]
+        elif rng.random() < 0.5:
             steps += [op, {'a': 'DispatchPublish', 'n': 'a'}, {'a': 'Crash', 'n': 'a'}]
         else:
-            steps += [{'a': 'Block'}, op, {'a': 'PublishFail', 'n': 'a'}, {'a': 'Crash', 'n': 'a'}]
+            steps += [{'a': 'Block', 'how': rng.choice(['readonly', 'nack'])}, op, {'a': 'PublishFail', 'n': 'a'},
+                      {'a': 'Crash', 'n': 'a'}]
         steps += [{'a': 'Start', 'n': 'a'}, {'a': 'Elect', 'n': 'a'}, {'a': 'BecomeLeader', 'n': 'a'}]
-        for _ in range(events):
+        for _ in range(todo):
             steps += [{'a': 'DispatchPublish', 'n': 'a'}, {'a': 'RecordPublished', 'n': 'a'}]
-        out.append({'id': first_id + i, 'cfg': {'nodes': ['a']}, 'steps': steps})
+        if foreign:
+            steps.append({'a': 'ForeignOp'})
+        # one more round: the restarted controller goes on behind what it has just recorded
+        op = {'a': 'CommitOp', 'k': 'E'}
+        op.update(meta.pick())
+        steps += [op, {'a': 'DispatchPublish', 'n': 'a'}, {'a': 'RecordPublished', 'n': 'a'}]
+        cfg = {'nodes': ['a']}
+        if foreign:
+            cfg['foreign'] = foreign_cfg(rng)
+        out.append({'id': first_id + i, 'cfg': cfg, 'steps': steps})
     return out
+
+
+def variant_scenarios(rng, first_id):
+    """Defective variant of ONE decision of the specification as a generator of directed scenarios:
+    with SnapCarriesLP = FALSE (the snapshot does not carry lastPublished - the code before its repair)
+    TLC's counterexample is a shortest behaviour in which exactly that decision matters.  It is replayed
+    on the real code like any other behaviour (and must hold there)."""
+    import re
+    with core.scratch('cex') as d:
+        core._stage_specs(d)
+        cmd = ['tlc', '-workers', '4', '-metadir', os.path.join(d, 'meta'), '-config', 'MC_Activity_snap_before.cfg',
+               '-noGenerateSpecTE', 'MC_Activity.tla']
+        rc, out, wall = core._run_tlc(cmd, d, core._tlc_env(d), 600)
+    if rc is None or 'is violated' not in out:
+        raise core.Inconclusive('the defective variant of the specification produced no counterexample: %s' % out[-1500:])
+    steps = []
+    for m in re.finditer(r'^State \d+: <(.*?)>\n(.*?)(?=^State \d+:|\Z|^\d+ states generated)', out, re.S | re.M):
+        steps.append({'label': m.group(1), 'last': core.tlaval.state_var(m.group(2), 'last'), 'body': m.group(2)})
+    b = decorate(steps, rng, first_id)
+    # the counterexample ends where the variant goes wrong; let the real controller go on from there
+    b['steps'] += [{'a': 'CommitOp', 'k': 'E', 'op': 'create', 'name': 'v%d' % first_id, 'parts': 1},
+                   {'a': 'DispatchPublish', 'n': 'a'}, {'a': 'RecordPublished', 'n': 'a'}]
+    b['variant'] = 'SnapCarriesLP=FALSE'
+    return [b]
 
 
 def features(beh):
@@ -163,12 +287,14 @@ def features(beh):
         f.add('takeover')
     if 'StepDown' in acts:
         f.add('stepdown')
+    if 'ForeignOp' in acts:
+        f.add('foreign')
     return ','.join(sorted(f)) or '-'
 
 
 def nontrivial(beh):
     acts = {s['a'] for s in beh['steps']}
-    return 'CommitOp' in acts and bool(acts & {'PublishFail', 'Crash', 'TakeOver', 'Snapshot', 'StepDown'})
+    return 'CommitOp' in acts and bool(acts & {'PublishFail', 'Crash', 'TakeOver', 'Snapshot', 'StepDown', 'ForeignOp'})
 
 
 def run_shard(behaviours, d, k, out, timeout):
@@ -264,6 +390,17 @@ def judge(rep, behaviours, trace):
     return res
 
 
+def quiet_drift(rep, trace):
+    """A behaviour that ended on a `Quiet` line (dispatcher blocked in its own code for the whole window,
+    nothing pending - otherwise TLC has reported C18_IdleMeansPublished): the real code had less to
+    publish than the specification said.  That is conformance drift, not an inconclusive run."""
+    bad = {b['id'] for _, _, obj in rep.violations for b in obj['behaviours']}
+    for e in core.read_ndjson(trace):
+        if e.get('a') == 'Quiet' and e['t'] not in bad:
+            rep.drift({'behaviour': e['t'], 'action': 'Quiet',
+                       'what': 'the dispatcher is idle with nothing pending while the behaviour expects a publish'})
+
+
 def conformance(rep, behaviours, trace):
     """TraceI_Activity: is every recorded observation reachable from the previous one by steps of
     Activity.tla (hidden dispatcher / raft steps)?  A gap is drift, never a verdict."""
@@ -292,10 +429,11 @@ def conformance(rep, behaviours, trace):
 
 DESIGN = {
     'quick': [('MC_Activity.cfg', False), ('MC_Activity_cc.cfg', False), ('MC_Activity_step.cfg', False),
-              ('MC_Activity_live.cfg', False)],
+              ('MC_Activity_snap.cfg', False), ('MC_Activity_live.cfg', False)],
     'thorough': [('MC_Activity.cfg', True), ('MC_Activity_cc.cfg', True), ('MC_Activity_live.cfg', False),
                  ('MC_Activity_step.cfg', False), ('MC_Activity_thorough.cfg', False),
-                 ('MC_Activity_cc_thorough.cfg', False), ('MC_Activity_step_thorough.cfg', False)],
+                 ('MC_Activity_cc_thorough.cfg', False), ('MC_Activity_step_thorough.cfg', False),
+                 ('MC_Activity_snap.cfg', False), ('MC_Activity_snap_thorough.cfg', False)],
 }
 
 
@@ -321,15 +459,27 @@ def run(rep, tier, seed, replay):
         rep.add_design(cfg[:-4], res)
     # 2. behaviours from the specification (one server, eager schedule)
     num = 70 if tier == 'quick' else 600
-    sims = core.tlc_simulate('MC_Activity.tla', 'Sim_Activity.cfg', num, 40, seed)
-    behaviours = [decorate(b, rng, i + 1) for i, b in enumerate(sims) if len(b) > 2]
-    behaviours += snapshot_scenarios(rng, len(sims) + 1, 3 if tier == 'quick' else 12)
+    #    a pool several times larger than what is executed; the subset that covers the situation
+    #    features (snapshot with / without a backlog, what lies behind it at the restart, ...) is replayed
+    pool = core.tlc_simulate('MC_Activity.tla', 'Sim_Activity.cfg', num * 6, 40, seed)
+    sims, covered = select(pool, num, rng)
+    # a second cluster costs one more server per behaviour: keep it in a bounded number of them
+    nforeign = 8 if tier == 'quick' else 60
+    behaviours = []
+    for i, b in enumerate(sims):
+        has = any(st['last']['a'] == 'ForeignOp' for st in b[1:])
+        behaviours.append(decorate(b, rng, i + 1, foreign=has and nforeign > 0))
+        nforeign -= 1 if has else 0
+    behaviours += snapshot_scenarios(rng, len(behaviours) + 1, 6 if tier == 'quick' else 24)
+    behaviours += variant_scenarios(rng, len(behaviours) + 1)
+    rep.cov['situations'] = covered
     # 3. execute on the real server, 4. TLC judges
     with core.scratch('c18') as d:
         trace, abandoned, nlines = execute(behaviours, d, shards=6 if tier == 'quick' else 8,
                                            timeout=900 if tier == 'quick' else 2400)
         tr = judge(rep, behaviours, trace)
         conf = conformance(rep, behaviours, trace)
+        quiet_drift(rep, trace)
     rep.cov['traces_validated_against_impl'] = len(behaviours) - len(abandoned)
     rep.cov['trace_lines_validated'] = tr['validated']
     rep.cov['evaluations'] = len(behaviours)
@@ -337,7 +487,9 @@ def run(rep, tier, seed, replay):
                                           if nontrivial(b) and b['id'] not in abandoned})
     rep.cov['rule'] = ('behaviours = TLC simulation of MC_Activity (Sim_Activity.cfg, seeded) with concrete metadata '
                        'operations filled in; non-trivial = contains an operation and at least one publish failure, '
-                       'crash, take-over or snapshot; distinct by hash of the step list')
+                       'crash, take-over, snapshot, step-down or foreign operation; distinct by hash of the step list; the '
+                       'simulated pool is 6x the executed number, selected by situation features (see `situations`), plus the '
+                       'directed snapshot family and the counterexample of the defective variant SnapCarriesLP = FALSE')
     rep.cov['samples'] = behaviours[:2]
     rep.cov['abandoned'] = len(abandoned)
     if conf:
